@@ -409,12 +409,14 @@ struct Runner
             derr = "Tracked: " + std::to_string(tracked_live()) + " value object(s) never destroyed";
         if (derr.empty() && !tracked_error().empty())
             derr = "Tracked: " + tracked_error();
-        if (!derr.empty() && !cr.violated)
+        if (!derr.empty())
         {
-            cr.violated      = true;
-            cr.viol.tags     = {"C08.destroy"};
-            cr.viol.detail   = derr;
-            cr.viol.op_index = (int)cr.lines.size();
+            // reported in addition to whatever behavioural clause the same defect tripped
+            if (!cr.violated)
+                cr.viol.op_index = (int)cr.lines.size();
+            cr.violated = true;
+            cr.viol.tags.push_back("C08.destroy");
+            cr.viol.detail += (cr.viol.detail.empty() ? "" : " || ") + derr;
         }
         cr.ev   = mon.case_ev;
         cr.hash = h;
